@@ -9,7 +9,8 @@
 (* expressions (one record per constructor call, as in UFLBuild): argument *)
 (* terminals (number 0 = test, 1 = trial; part 0 = none, p >= 1 = the      *)
 (* (p-1)-th sub-space of a MixedFunctionSpace), coefficients, literals,    *)
-(* + - * / neg conj real imag abs pow inner dot outer index list var.      *)
+(* + - * / neg conj real imag abs pow inner dot outer index list var isum   *)
+(* (isum(a, b) = a[i]*b[i], an IndexSum over a free index).                *)
 (* Every record carries its shape, `degs` = the set of degrees of          *)
 (* homogeneity <<deg in test, deg in trial>> of its monomials (3 = under a *)
 (* nonlinear operator) and `val` = its exact value (module CQ) at every    *)
@@ -93,7 +94,7 @@ OpDegs(op, ds) ==
   LET A == ds[1]  B == ds[Len(ds)] IN
   CASE op \in {"add", "sub"} -> A \cup B
     [] op \in {"neg", "conj", "real", "imag", "var", "index"} -> A
-    [] op \in {"mul", "inner", "dot", "outer"} -> DMul(A, B)
+    [] op \in {"mul", "inner", "dot", "outer", "isum"} -> DMul(A, B)
     [] op = "div" -> IF B = DZ THEN A ELSE NLD
     [] op = "abs" -> IF A = DZ THEN DZ ELSE NLD
     [] op = "pow" -> IF A = DZ /\ B = DZ THEN DZ ELSE NLD
@@ -105,7 +106,7 @@ OpSh(op, mi, xs) ==
   LET x == xs[1]  y == xs[Len(xs)] IN
   CASE op \in {"add", "sub", "neg", "conj", "real", "imag", "abs", "var", "div"} -> x.sh
     [] op = "mul" -> IF x.sh = << >> THEN y.sh ELSE x.sh
-    [] op \in {"pow", "inner", "dot", "index"} -> << >>
+    [] op \in {"pow", "inner", "dot", "index", "isum"} -> << >>
     [] op = "outer" -> x.sh \o y.sh
     [] op = "list" -> <<Len(xs)>>
 
@@ -126,7 +127,8 @@ OpVal(op, mi, xs) ==
     [] op = "var" -> x.val
     \* inner(a, b) = sum_c a_c conj(b_c);  dot: no conjugation;  outer(a, b) = conj(a) (x) b
     [] op = "inner" -> PW(<< >>, LAMBDA p, c : CSumSet(Tup(x.sh), LAMBDA t : CMul(x.val[p][t], CConj(y.val[p][t]))))
-    [] op = "dot" -> PW(<< >>, LAMBDA p, c : CSumSet(Tup(x.sh), LAMBDA t : CMul(x.val[p][t], y.val[p][t])))
+    \* isum(a, b) = a[i]*b[i] (IndexSum of a Product of Indexed with a free index): the value of dot
+    [] op \in {"dot", "isum"} -> PW(<< >>, LAMBDA p, c : CSumSet(Tup(x.sh), LAMBDA t : CMul(x.val[p][t], y.val[p][t])))
     [] op = "outer" -> PW(x.sh \o y.sh, LAMBDA p, c :
                            CMul(CConj(x.val[p][SubSeq(c, 1, Len(x.sh))]), y.val[p][SubSeq(c, Len(x.sh) + 1, Len(c))]))
     [] op = "index" -> PW(<< >>, LAMBDA p, c : x.val[p][mi])
@@ -142,6 +144,8 @@ MkNode(s, op, args, mi) ==
 \* the language's well-formedness rules, restricted to constructions whose real object has the
 \* same operator structure (no construction-time rewriting other than operand sorting)
 IsLit(x) == x.op = "lit"
+IndexableOps == {"arg", "coef", "outer", "var", "conj", "real", "imag"}
+FreeIndexableOps == {"arg", "coef", "var", "conj", "real", "imag", "list"}
 OkNode(s, op, args, mi) ==
   LET x == s[args[1]]  y == s[args[Len(args)]] IN
   CASE op \in {"add", "sub"} -> x.sh = y.sh /\ ~(IsLit(x) /\ IsLit(y))
@@ -158,9 +162,14 @@ OkNode(s, op, args, mi) ==
     [] op = "outer" -> Len(x.sh) = 1 /\ Len(y.sh) = 1
     \* a[k] with fixed indices; only where ufl builds an Indexed node (it rewrites indexed
     \* sums, list tensors and component tensors at construction)
-    [] op = "index" -> /\ x.op \in {"arg", "coef", "outer"} /\ Len(mi) = Len(x.sh) /\ Len(mi) >= 1
+    \* (a Variable / Conj / Real / Imag node is indexed as it is: the Indexed node then wraps an
+    \* expression whose extracted part may differ from the expression itself)
+    [] op = "index" -> /\ x.op \in IndexableOps /\ Len(mi) = Len(x.sh) /\ Len(mi) >= 1
                        /\ \A k \in 1..Len(mi) : mi[k] \in 0..(x.sh[k] - 1)
     [] op = "list" -> \A k \in 1..Len(args) : s[args[k]].sh = << >> /\ ~IsLit(s[args[k]])
+    \* a[i]*b[i]: only operands that ufl indexes with a free index without rewriting them
+    [] op = "isum" -> /\ x.sh = y.sh /\ Len(x.sh) = 1
+                      /\ x.op \in FreeIndexableOps /\ y.op \in FreeIndexableOps
 
 -----------------------------------------------------------------------------
 (* Initial store *)
@@ -216,7 +225,7 @@ SZ(n, DV, DU) ==            \* the rebuilt node n is a Zero
     [] x.op = "index" -> IF store[x.args[1]].op = "arg" THEN SlotDead(store[x.args[1]].mi[1], x.mi, DV, DU)
                          ELSE SZ(x.args[1], DV, DU)
     [] x.op \in {"add", "sub"} -> SZ(x.args[1], DV, DU) /\ SZ(x.args[2], DV, DU)
-    [] x.op \in {"mul", "inner", "dot", "outer"} -> SZ(x.args[1], DV, DU) \/ SZ(x.args[2], DV, DU)
+    [] x.op \in {"mul", "inner", "dot", "outer", "isum"} -> SZ(x.args[1], DV, DU) \/ SZ(x.args[2], DV, DU)
     [] x.op = "list" -> \A k \in 1..Len(x.args) : SZ(x.args[k], DV, DU)
     [] OTHER -> SZ(x.args[1], DV, DU)       \* neg conj real imag abs pow(base) div(numerator) var
 RECURSIVE ArgsIn(_, _, _)
@@ -305,6 +314,8 @@ PE(n, W, DV, DU) ==
                                  ELSE HIndexedFree(Built("div", << >>,
                                         <<pn, [sh |-> << >>, val |-> ValD(store[x.args[2]], DV, DU), degs |-> DZ]>>, pn.prov))
          [] x.op \in {"inner", "dot", "outer"} -> HProduct(x.op, x.sh, P(1), P(2), W)
+         \* IndexSum(Product(Indexed(a, i), Indexed(b, i)), i): indexed, product, index_sum
+         [] x.op = "isum" -> HIndexedFree(HProduct("isum", x.sh, HIndexedFree(P(1)), HIndexedFree(P(2)), W))
          [] x.op \in {"conj", "real", "imag"} -> HLinear(x.op, P(1))
          [] x.op = "index" -> HIndexed(x.mi, P(1))
          [] x.op = "list" -> HList([k \in 1..Len(x.args) |-> P(k)])
@@ -463,8 +474,8 @@ EBSum(k) == SVal(LAMBDA p : CSumSet((1..EBShape[1]) \X EBCols, LAMBDA ij : EBVal
 Ids == 1..Len(store)
 Avail == (Usable \cup ((NInit + 1)..Len(store)))
 Un1 == {"neg", "abs", "conj", "real", "imag", "var"} \cap OpSet
-Bin2 == {"add", "sub", "mul", "div", "pow", "inner", "dot", "outer"} \cap OpSet
-Comm == {"add", "mul", "dot"}
+Bin2 == {"add", "sub", "mul", "div", "pow", "inner", "dot", "outer", "isum"} \cap OpSet
+Comm == {"add", "mul", "dot", "isum"}
 Push(op, args, mi) == OkNode(store, op, args, mi) /\ store' = Append(store, MkNode(store, op, args, mi))
 Build ==
   /\ form = << >> /\ Len(store) < NInit + MaxNodes
